@@ -402,3 +402,43 @@ func Go(fn func()) {
 	}
 	panic(fmt.Sprintf("verifrt.Go: dynamic goroutine creation inside a simulation is not supported"))
 }
+
+// ---------------------------------------------------------------- exclusivity monitor
+
+var live [256]unsafe.Pointer
+
+// LiveAdd registers p as in use; it reports false if p is already in use by
+// someone else (pool exclusivity violated).  Race-detector invisible.
+//
+//go:norace
+func LiveAdd(p unsafe.Pointer) bool {
+	free := -1
+	for i := range live {
+		if live[i] == p {
+			return false
+		}
+		if live[i] == nil && free < 0 {
+			free = i
+		}
+	}
+	if free >= 0 {
+		live[free] = p
+	}
+	return true
+}
+
+//go:norace
+func LiveRemove(p unsafe.Pointer) {
+	for i := range live {
+		if live[i] == p {
+			live[i] = nil
+		}
+	}
+}
+
+//go:norace
+func LiveReset() {
+	for i := range live {
+		live[i] = nil
+	}
+}
